@@ -31,7 +31,19 @@ impl std::fmt::Debug for Pay {
         match PAY_DEBUG_MODE.with(|m| m.get()) {
             1 => Err(std::fmt::Error),
             2 => std::panic::resume_unwind(Box::new(crate::interp::Injected)),
-            _ => write!(f, "Pay({},{})", self.lid, self.a),
+            _ => {
+                // whoever formats the payload reads it: the formatting thread must hold the lock
+                // (the library's Debug impls take the lock with a try and keep it while they print)
+                if let (Some(s), Some(me)) = (sched::cur(), sched::my_tid()) {
+                    let mut g = s.lock();
+                    let lid = self.lid as usize;
+                    if g.monitors_on && lid < g.locks.len() && g.holds(me, lid).is_none() {
+                        let d = format!("payload of lock {} formatted (Debug) while the formatting thread does not hold the lock (excl={:?} shared={:?})", lid, g.locks[lid].excl, g.locks[lid].shared);
+                        g.event(Clause::AccessWithoutHold, me, d);
+                    }
+                }
+                write!(f, "Pay({},{})", self.lid, self.a)
+            }
         }
     }
 }
